@@ -60,6 +60,7 @@ def run(check: Check) -> None:
     for cls in c08.ACTIVATIONS:  # "the connectives are computed with the rule block's conjunction and disjunction operators"
         activation_semantics(check, cls, ("conjunction", "disjunction"))
     x1_format_infix(check)
+    x1_format_infix_semantics(check)
     check.exhaustive_parts += ["pop rule over all orderings", "antecedent automaton x grammar automaton", "dispatch cases of activation_degree"]
 
 
@@ -235,3 +236,64 @@ def x1_format_infix(check: Check) -> None:
     check.require(not shadowed, "X1", "Function.format_infix/longest-first",
                   "multi-character operators are tried before their prefixes (`**` before `*`)" if not shadowed else
                   f"`{shadowed[0][0]}` is tried before `{shadowed[0][1]}`, of which it is a prefix: `{shadowed[0][1]}` is split into two tokens", loc(fn))
+
+
+def x1_format_infix_semantics(check: Check, rule: str = "X1-sem") -> None:
+    """X1-sem [E on the corpus]: `Function.format_infix` interpreted (sa/objexec.py; regular expressions on concrete strings have their Python meaning)
+    on every formula `a<op>b` for a registered operator symbol (or `(`, `)`, `,`) between two operands drawn from names and numbers of different
+    spellings - among them names ending in `e` / `E` and numbers, which a tokeniser that knows about exponents may confuse: the result must be the
+    three tokens `a`, `<op>`, `b` separated by single spaces; the words `and` / `or` stay what they are."""
+    from ..absexec import Internal, MObj, Opaque, Raised, Unknown
+    from ..objexec import ObjExec
+    from .roundtrip_sem import E0
+
+    p = check.program
+    fn = p.func("Function.format_infix")
+    check.analysed(fn)
+    ops = sorted({e.name for e in function_factory(p) if e.kind == "Operator"})
+    symbols = [o for o in ops if o not in ("and", "or")] + ["(", ")", ","]
+    operands = ["x", "rate", "scaleE", "e", "v_1", "2", "10", "7e", "E1"]
+    ex = ObjExec(p, "format_infix")
+    registry = MObj("<function factory>", {})
+    ex.hooks["method:operators"] = lambda ex_, e, recv, args, kw: {name: Opaque("element") for name in ops}
+    ex.globals.update({"settings": MObj("<settings>", {"factory_manager": MObj("<manager>", {"function": registry})}), "re": Opaque("re")})
+    bad = None
+    n = 0
+    try:
+        for op in symbols:
+            longer = [o for o in symbols if o != op and op in o]
+            for a in operands:
+                for b in operands:
+                    text = f"{a}{op}{b}"
+                    if any(o in text for o in longer):
+                        continue  # the text spells a longer symbol (`*` next to `*`)
+                    if op[0] == "." and a[-1].isdigit() or op[-1] == "." and b[0].isdigit():
+                        continue  # `2.-3`: the dot may belong to the number
+                    n += 1
+                    try:
+                        got = ex.invoke(fn, [ex_cls(p), text], {}, E0)
+                    except (Raised, Internal) as err:
+                        bad = bad or f"format_infix({text!r}) ends with {err.cls}"
+                        continue
+                    want = f"{a} {op} {b}"
+                    if got != want:
+                        bad = bad or (f"format_infix({text!r}) is {got!r}, specified {want!r}: the operator `{op}` between the operands `{a}` and `{b}` is not "
+                                      "separated into a token of its own")
+        for text in ("a and b", "a or b and c", "x   +  1"):
+            n += 1
+            got = ex.invoke(fn, [ex_cls(p), text], {}, E0)
+            want = " ".join(text.replace("+", " + ").split())
+            if got != want:
+                bad = bad or f"format_infix({text!r}) is {got!r}, specified {want!r}"
+    except Unknown as u:
+        check.notes.append(f"{rule}: undecided (outside the interpreter's model): {u}")
+        check.ok(rule, "Function.format_infix/undecided", f"the spacing of operators is outside the interpreter's model ({u}); decided by X1 only", loc(fn))
+        return
+    check.require(bad is None, rule, "Function.format_infix/tokens", f"every operator symbol between two operands becomes a token of its own ({n} formulas)" if bad is None else bad,
+                  loc(fn), {"formulas": n}, exhaustive=True, cases=n)
+
+
+def ex_cls(p):  # type: ignore[no-untyped-def]
+    from ..objexec import ClassV
+
+    return ClassV(p.cls("Function").qualname)
